@@ -19,4 +19,35 @@ theorem canonical_guard_present :
 theorem entry_points_source_pinned :
     OLP.Expect.pinnedOf OLP.Gen.pinned (pinnedShell.map (fun r => r.fn)) = pinnedShell := by decide
 
+/-- The transaction envelope as the Go types declare it. A signature covers `RawTx.RawBytes()`
+    (type, data, fee, memo): everything else in `SignedTx` is outside every signature, so it has
+    to be exactly the list of signature entries, an entry exactly a key and the signature bytes,
+    a key exactly its algorithm tag and its bytes. A further declared field — for which the
+    canonical-encoding guard would accept a new member, because the re-serialisation reproduces a
+    declared field — would give every executed transaction a second canonical form with another
+    hash (seed C05-unsigned-origin-field-in-envelope); it breaks this obligation, and the replay
+    engine is then the search for the failing input. -/
+theorem envelope_fields_as_expected :
+    OLP.Gen.envelopeFields = [
+      ⟨"action.Amount", "Currency", "currency", false⟩,
+      ⟨"action.Amount", "Value", "value", false⟩,
+      ⟨"action.Fee", "Price", "price", false⟩,
+      ⟨"action.Fee", "Gas", "gas", false⟩,
+      ⟨"action.RawTx", "Type", "type", false⟩,
+      ⟨"action.RawTx", "Data", "data", false⟩,
+      ⟨"action.RawTx", "Fee", "fee", false⟩,
+      ⟨"action.RawTx", "Memo", "memo", false⟩,
+      ⟨"action.Signature", "Signer", "", false⟩,
+      ⟨"action.Signature", "Signed", "", false⟩,
+      ⟨"action.SignedTx", "RawTx", "", true⟩,
+      ⟨"action.SignedTx", "Signatures", "signatures", false⟩,
+      ⟨"data/keys.PublicKey", "KeyType", "keyType", false⟩,
+      ⟨"data/keys.PublicKey", "Data", "data", false⟩] := by decide
+
+/-- the part of a received transaction no signature covers is the list of signature entries and
+    nothing else -/
+theorem unsigned_part_is_the_signature_list :
+    (OLP.Gen.envelopeFields.filter (fun r => r.owner == "action.SignedTx" && !r.embedded)).map (fun r => r.field) =
+    ["Signatures"] := by decide
+
 end OLP.Props.C05.Facts
